@@ -209,6 +209,7 @@ func runKnownFindings(r *rng.R) {
 				cfg.AllowRevealShared = true
 			case "setter-clone-unlinked":
 				cfg.AllowCloneUnlinked = true
+				cfg.ForceCloneUnlinked = true
 			case "copyfrom-over-shared":
 				cfg.AllowCopyOverShared = true
 			case "frozen-reencode-marks":
